@@ -57,6 +57,7 @@ def run(facts, rep):
     d2_tiling(facts, rep)
     d3_chunks(facts, rep)
     d4_items(facts, rep)
+    d5_overloads(facts, rep)
 
 
 def divisible_edges(fn, ranges):
@@ -331,3 +332,16 @@ def d4_items(facts, rep):
         rs = calls_named(fn, ('reserve',))
         rep.ob('D4', 'K3', fn, 'a fed item holds a wait reference from construction', bool(rs), 'no reserve() in feeder_item_task constructor')
     rep.floor('D4', 8, 'per-item accounting')
+
+
+
+def d5_overloads(facts, rep):
+    """K7: every public overload of parallel_for / parallel_for_each ends in the same task class as its siblings"""
+    from rules.common import api_family_agreement
+    n = 0
+    for fam, what in ((D1 + 'parallel_for', 'start_for over the range'), ('tbb::detail::d2::parallel_for_each', 'for_each root task')):
+        g, unc = api_family_agreement(facts, rep, 'D5', fam, what)
+        n += g
+        if unc:
+            rep.note('D5: %d overload(s) of %s are not instantiated by the drivers and were not analysed' % (unc, fam))
+    rep.floor('D5', 25, 'public overloads of parallel_for / parallel_for_each')
